@@ -56,7 +56,7 @@ static void per_order(Harness &H, const std::string &d0, const Grid<S> &g, size_
 }
 
 static void run(Harness &H) {
-  std::vector<std::string> fams = H.thorough() ? std::vector<std::string>{"nonuni", "far", "uni", "neg"} : std::vector<std::string>{"far", "neg"};
+  std::vector<std::string> fams = H.thorough() ? std::vector<std::string>{"nonuni", "far", "uni", "neg", "sym"} : std::vector<std::string>{"far", "neg", "sym"};
   size_t n = H.thorough() ? 5 : 4, xmax = 6;
   for (auto fam : fams) {
     auto pts = grid_family(fam, n);
